@@ -36,6 +36,7 @@ type C07Req struct {
 	GM    string   `json:"gm,omitempty"` // "" | g0 | zero | stale
 	MM    string   `json:"mm,omitempty"` // "" | m0
 	Srcs  []string `json:"srcs,omitempty"`
+	Echo  bool     `json:"echo,omitempty"` // patch: the body also carries the metageneration the client read ("1")
 }
 
 type C07Case struct {
@@ -430,7 +431,7 @@ func runC07Case(c *C07Case, ch sched.Chooser) (c07Stats, string) {
 		case "patch":
 			in.Key, in.Val = fmt.Sprintf("k%d", w), fmt.Sprintf("v%d-%d", w, i)
 			resp = e.Do(&gcs.Req{Method: "PATCH", Path: gcs.ObjPath("bkt", c07T) + "?" + strings.TrimPrefix(qv, "&"), Headers: map[string]string{"Content-Type": "application/json"},
-				Body: gcs.BS(fmt.Sprintf(`{"metadata":{"%s":"%s"}}`, in.Key, in.Val))})
+				Body: gcs.BS(fmt.Sprintf(`{"metadata":{"%s":"%s"}%s}`, in.Key, in.Val, map[bool]string{true: `,"metageneration":"1"`}[rq.Echo]))})
 		case "delete":
 			resp = e.Do(&gcs.Req{Method: "DELETE", Path: gcs.ObjPath("bkt", c07T) + "?" + strings.TrimPrefix(qv, "&")})
 		case "compose":
@@ -552,6 +553,7 @@ func genC07(free bool) *rapid.Generator[C07Case] {
 			case "patch":
 				r.MM = rapid.SampledFrom([]string{"", "m0", "m0"}).Draw(t, "mm")
 				r.GM = rapid.SampledFrom([]string{"", "", "g0"}).Draw(t, "gm")
+				r.Echo = rapid.Bool().Draw(t, "echo") // read-modify-write client sending back the resource it read
 			case "delete":
 				r.GM = rapid.SampledFrom([]string{"", "g0"}).Draw(t, "gm")
 			case "compose":
@@ -592,7 +594,7 @@ func runC07Sched(c C07Case, ev *vt.Ev) *vt.Failure {
 
 func TestC07Sched(t *testing.T) {
 	vt.Prop[C07Case]{ID: "C07", Test: "TestC07Sched",
-		Rule: "owned schedules: 2-4 concurrent HTTP clients x 1-2 requests on ONE object (uploads media/multipart conditioned on the initial generation / non-existence / metageneration, patches with a distinct metadata key per client, deletes, composes from {S1,S2,T}, copies S1->T within the bucket and from another bucket, metadata and media GETs), both stores; yield points at every Store method (decorator), every lock-map step (enabledness known) and inside the file store's Add/Delete; rapid-drawn shrinkable choice list; the whole history incl. final reads is checked with porcupine against a sequential object model (conditions judged at the linearization point, each write response must describe the object that request created, each read must equal one state in full); non-trivial = a request was parked between its precondition read and its store mutation (or inside filestore.Add/Delete) while another client ran, and two mutations overlapped",
+		Rule: "owned schedules: 2-4 concurrent HTTP clients x 1-2 requests on ONE object (uploads media/multipart conditioned on the initial generation / non-existence / metageneration, patches with a distinct metadata key per client (half of them echoing the metageneration they read in the body), deletes, composes from {S1,S2,T}, copies S1->T within the bucket and from another bucket, metadata and media GETs), both stores; yield points at every Store method (decorator), every lock-map step (enabledness known) and inside the file store's Add/Delete; rapid-drawn shrinkable choice list; the whole history incl. final reads is checked with porcupine against a sequential object model (conditions judged at the linearization point, each write response must describe the object that request created, each read must equal one state in full); non-trivial = a request was parked between its precondition read and its store mutation (or inside filestore.Add/Delete) while another client ran, and two mutations overlapped",
 		Gen:  genC07(false), Run: runC07Sched}.Main(t)
 }
 
